@@ -23,7 +23,10 @@ LEVEL_TEXT = ("Machine-checked proof (Coq, closed under the global context) over
               "equality with tables regenerated from the source (gen/c42.py).  ChannelFile, ChannelStdinFile and "
               "ChannelStderrFile are additionally driven over a REAL Channel with a recording stub transport: the "
               "peer-visible byte stream after flush/close (right stream, complete, in order, EOF after the data, "
-              "packet-size bound) and the bytes read back are checked directly.")
+              "packet-size bound) and the bytes read back are checked directly.  Timeouts: a model of read(n) over "
+              "a stream whose _read raises socket.timeout on an arbitrary schedule is proved to lose nothing across "
+              "retries (C42_read_n_stream_timeouts) and is compared with the real code; read() and readline() "
+              "under exceptions are checked by the oracle only (known findings on the code as it is).")
 LEVEL_NOTE = ("Trusted: Coq kernel + vm_compute; hand-written model coq/Model/C42.v validated by the "
               "correspondence run; universal-newline ('U') and text decoding are outside the Coq model and are "
               "covered only by the implementation-level oracle on ASCII data (readline()/iteration without "
@@ -613,6 +616,94 @@ def channel_files_oracle(ctx, rng, n):
         channel_read_case(ctx, rng)
 
 
+
+# ---------------------------------------------------------------- timeouts -----
+def timeout_case(ctx, case, collect):
+    """_read raises socket.timeout at chosen call positions; every call is retried until it returns.
+    case = (kind, bufsize, data, ro, faults, sizes, use_channel); kind in read_n / read_all / readline"""
+    import socket
+    from paramiko.file import BufferedFile
+    from paramiko.channel import ChannelFile
+    kind, bufsize, data, ro, faults, sizes, use_channel = case
+    st = {"data": bytes(data), "ro": list(ro), "faults": list(faults)}
+
+    class Chan:
+        def recv(self, size):
+            if st["faults"]:
+                if st["faults"].pop(0):
+                    raise socket.timeout()
+            c = st["ro"].pop(0) if st["ro"] else 1
+            k = min(size, max(1, c))
+            d = st["data"][:k]
+            st["data"] = st["data"][k:]
+            return d
+
+    ch = Chan()
+    if use_channel:
+        f = ChannelFile(ch, "rb", bufsize)
+    else:
+        class Stub(BufferedFile):
+            def __init__(self):
+                BufferedFile.__init__(self)
+                self._set_mode("rb", bufsize)
+
+            def _read(self, size):
+                return ch.recv(size)
+        f = Stub()
+    desc = {"kind": kind, "bufsize": bufsize, "data": data, "read_chunks": ro, "faults": faults, "sizes": sizes,
+            "channel_file": use_channel}
+    got = b""
+    out = []
+    lost_key = {"read_n": "read-n-loses-data-on-exception", "read_all": "read-all-loses-data-on-exception",
+                "readline": "readline-loses-data-on-exception"}[kind]
+    for n in sizes:
+        before = bytes(f._rbuffer) + st["data"]
+        try:
+            if kind == "read_n":
+                r = f.read(n)
+            elif kind == "read_all":
+                r = f.read()
+            else:
+                r = f.readline() if n < 0 else f.readline(n)
+            out += [1, len(r)] + list(r)
+            got += r
+        except socket.timeout:
+            out += [0, 5]
+            r = b""
+        after = bytes(f._rbuffer) + st["data"]
+        if r + after != before:
+            ctx.fail(lost_key, "an exception raised by the stream's _read (socket.timeout) between two chunks of one "
+                     "%s call loses the chunks already received: the retried reads return a stream with a hole"
+                     % {"read_n": "read(n)", "read_all": "read()", "readline": "readline()"}[kind],
+                     case=desc, expected=before, observed=r + after)
+            break
+    out += [-2, f._pos, f._realpos, len(f._rbuffer)]
+    f._closed = True
+    if kind == "read_n" and collect is not None and not use_channel:
+        collect.append(("(%s, %s, %s, %s, %s)" % (coq(bufsize), coq(list(data)), coq(ro),
+                                              "[" + ";".join("true" if x else "false" for x in faults) + "]",
+                                              coq(sizes)), out, desc))
+
+
+def timeouts_oracle(ctx, rng, n):
+    evcases = []
+    for j in range(n):
+        kind = ["read_n", "read_n", "read_all", "readline"][j % 4]
+        data = bytes(rng.choice(b"xy\n") for _ in range(rng.choice([3, 8, 20, rng.randrange(1, 50)])))
+        ro = [rng.choice([1, 2, 3, 5]) for _ in range(rng.randrange(0, 30))]
+        faults = [rng.random() < 0.35 for _ in range(rng.randrange(1, 25))]
+        if kind == "read_n":
+            sizes = [rng.choice([1, 2, 4, 7, 12, rng.randrange(1, 30)]) for _ in range(rng.randrange(2, 10))]
+        elif kind == "read_all":
+            sizes = [-1] * rng.randrange(2, 8)
+        else:
+            sizes = [rng.choice([-1, -1, 3, 6]) for _ in range(rng.randrange(2, 10))]
+        case = (kind, rng.choice(BUFSIZES), data, ro, faults, sizes, rng.random() < 0.3)
+        ctx.count(("timeout", case), nontrivial=any(faults), kind="timeout-" + kind)
+        timeout_case(ctx, case, evcases)
+    return evcases
+
+
 def run(ctx):
     rng = ctx.rng
     scale = 8 if ctx.thorough else 1
@@ -642,6 +733,7 @@ def run(ctx):
         cases.append((case, impl))
     text_mode_oracle(ctx, rng, 150 * scale)
     channel_files_oracle(ctx, rng, 120 * scale)
+    evcases = timeouts_oracle(ctx, rng, 200 * scale)
     small = [(c, i) for c, i in cases if len(c) == 8]
     bigc = [(c, i) for c, i in cases if len(c) > 8]
     def safe(fn, ty, cs, **kw):
@@ -661,6 +753,10 @@ def run(ctx):
         for i in bad[:3]:
             ctx.disagree("BufferedFile differs from the model (large stream)", case=bigc[i][0][:2],
                          impl=bigc[i][1][:50])
+    bad = safe("run_c42_ev", "(Z * list Z * list Z * list bool * list Z)", [(t, o) for t, o, _ in evcases])
+    for i in bad[:3]:
+        ctx.disagree("BufferedFile.read(n) under socket.timeout differs from the model", case=evcases[i][2],
+                     impl=evcases[i][1])
     ctx.sample({"case": cases[0][0], "impl": cases[0][1]})
     ctx.sample({"case": cases[1][0], "impl": cases[1][1]})
 
@@ -671,6 +767,12 @@ def replay(ctx, rep):
 
     def unhex0(v):
         return bytes.fromhex(v["hex"]) if isinstance(v, dict) else v
+    if isinstance(case, dict) and "faults" in case:
+        c = (case["kind"], case["bufsize"], unhex0(case["data"]), case["read_chunks"], case["faults"], case["sizes"],
+             case.get("channel_file", False))
+        ctx.count(("replay", c))
+        ctx.count(("replay2", c))
+        return timeout_case(ctx, c, None)
     if isinstance(case, dict) and "maker" in case:
         c = (case["maker"], case["bufsize"], [unhex0(x) for x in case["pieces"]], case["finish"], case["max_packet"])
         ctx.count(("replay", c))
